@@ -9,7 +9,7 @@ COQ_IMPORTS = 'From PB Require Import model.M_table.\n'
 PER_FILE = 120
 CASE_TIMEOUT = 10
 NREGS = 3
-RULE = ('cases: histories of 1-12 public table operations over 3 registers (assignment as d[k]=v, d.update({k: v}), d.k = v with extra misfits on one-row tables; constructors from records / keyword or dict columns '
+RULE = ('cases: histories of 1-12 public table operations over 3 registers (integer column names (d[0]=v, update({0: v}), dictable({0: ..}), records / d + {0: ..}: stored as "0"); assignment as d[k]=v, d.update({k: v}), d.k = v with extra misfits on one-row tables; constructors from records / keyword or dict columns '
         'with scalars / rows+headers / header-row form; d[k]=v, del d[k]; d[i], d[k], d[i][k] vs d[k][i], d[k1,k2], d[callable], list(d); '
         'slices incl. negative bounds and steps (negative too), range indices (ascending, descending down to row 0, stepped, empty, out of range), bool masks, int lists, column lists; d(k=value|callable); relabel / rename prefix, suffix, maps to fresh names, bijective maps among existing columns (swaps, cycles, identity entries, absent columns, chains ending in a fresh name); do; '
         'dictable.concat of 0-3 tables, d+None, d+0, 0+d, d+d, d+record; copy) on tables of 0-5 rows x 0-4 columns incl. empty tables and '
@@ -26,7 +26,7 @@ TRUSTED = ['modelled, not verified: the dict-of-lists model coq/model/M_table.v 
            'dict key order is not modelled: observations are compared with columns sorted by name; generated ops never depend on key order '
            '(relabel maps are injective on every table: permutations of a name set or chains ending in a history-fresh name; two-argument do-functions only with explicit keys)',
            'Dict.copy is modelled as the identity on contents (it re-inserts every column through __setitem__)']
-ASSUMPTIONS = ['cells are None, ints, half-integer floats, +-inf, NaN objects, ASCII strings, datetimes (year 1 .. 9999, microseconds); no bool cells, no nested containers', 'column names are ASCII identifiers (a column named "key" is modelled: it wins over the key=<new column> default of d(k=f)); not data / columns (constructor parameters)',
+ASSUMPTIONS = ['cells are None, ints, half-integer floats, +-inf, NaN objects, ASCII strings, datetimes (year 1 .. 9999, microseconds); no bool cells, no nested containers', 'column names are ASCII identifiers or ints (an int name is stored as its str; float / tuple names are kept as they are by the code and are not generated) (a column named "key" is modelled: it wins over the key=<new column> default of d(k=f)); not data / columns (constructor parameters)',
                'row/column callables come from the named set coalesce, is_none, identity, eq (model: M_table.rowfn, colfn); a derived-column function with a parameter "key" and NO such column receives the new column name (modelled, no oracle claim)']
 EXHAUSTIVE = {'quick': False, 'thorough': False}
 LEVEL_TEXT = ('machine-checked Coq theorems C01_* for all histories and tables (invariant + refinement to a list-of-records spec by induction over the '
@@ -350,7 +350,7 @@ def clauses(d, label):
 
 def ref_matches(t, d):
     ks = list(dict.keys(d))
-    if set(ks) != set(t.cols) or len(ks) != len(t.cols): return 'columns %s, list-of-records model has %s' % (sorted(ks), sorted(t.cols))
+    if set(ks) != set(t.cols) or len(ks) != len(t.cols): return 'columns %s, list-of-records model has %s' % (sorted(ks, key=repr), sorted(t.cols))
     vs = {k: dict.__getitem__(d, k) for k in ks}
     for k in ks:
         if len(vs[k]) != len(t.rows): return 'column %r has %s cells, list-of-records model has %s rows' % (k, len(vs[k]), len(t.rows))
@@ -382,21 +382,21 @@ def impl(case):
         before = [(t, snapshot(t)) for t in {id(t): t for t in regs}.values()]
         result = None; out = 'ok'; errn = None
         try:
-            if k == 'new_records': result = dictable([dict((n, conv(x)) for n, x in r) for r in o['recs']])
+            if k == 'new_records': result = dictable(Krecs(o, [[(n, conv(x)) for n, x in r] for r in o['recs']]))
             elif k == 'new_cols':
                 kv = dict((n, conv(v['S']) if 'S' in v else [conv(x) for x in v['L']]) for n, v in o['kvs'])
                 if o.get('form') == 'mixed':          # dictable(data_dict, **kw): keyword columns first, then the data columns
                     ks_ = list(kv); sp_ = o.get('split', 0)
-                    result = dictable({k_: kv[k_] for k_ in ks_[sp_:]}, **{k_: kv[k_] for k_ in ks_[:sp_]})
-                else: result = dictable(kv) if o.get('form') == 'dict' else dictable(**kv)
+                    result = dictable({K(o, k_): kv[k_] for k_ in ks_[sp_:]}, **{k_: kv[k_] for k_ in ks_[:sp_]})
+                else: result = dictable({K(o, k_): v_ for k_, v_ in kv.items()}) if o.get('form') == 'dict' else dictable(**kv)
             elif k == 'new_rows':
                 rows = [[conv(x) for x in r] for r in o['rows']]
                 result = dictable([list(o['names'])] + rows) if o['hdr'] else dictable(rows, list(o['names']))
             elif k == 'set':
                 v = o['v']; val = conv(v['S']) if 'S' in v else [conv(x) for x in v['L']]
-                if o.get('form') == 'update': regs[o['r']].update({o['key']: val})
+                if o.get('form') == 'update': regs[o['r']].update({K(o, o['key']): val})
                 elif o.get('form') == 'attr' and not o['key'].startswith('_'): setattr(regs[o['r']], o['key'], val)
-                else: regs[o['r']][o['key']] = val
+                else: regs[o['r']][K(o, o['key'])] = val
             elif k == 'del':
                 if o.get('form') == 'attr' and not o['key'].startswith('_'): delattr(regs[o['r']], o['key'])
                 else: del regs[o['r']][o['key']]
@@ -434,7 +434,7 @@ def impl(case):
             elif k == 'concat': result = dictable.concat([regs[r] for r in o['srcs']]) if o.get('form') == 'list' else dictable.concat(*[regs[r] for r in o['srcs']])
             elif k == 'add':
                 a = o['a']
-                other = None if a == 'none' else 0 if a == 'zero' else 0.0 if a == 'zerof' else regs[a['reg']] if 'reg' in a else [dict((n, conv(x)) for n, x in rc) for rc in a['recs']] if 'recs' in a else dict((n, conv(x)) for n, x in a['rec'])
+                other = None if a == 'none' else 0 if a == 'zero' else 0.0 if a == 'zerof' else regs[a['reg']] if 'reg' in a else Krecs(o, [[(n, conv(x)) for n, x in rc] for rc in a['recs']]) if 'recs' in a else dict((K(o, n), conv(x)) for n, x in a['rec'])
                 result = (other + regs[o['r']]) if o.get('radd') and a in ('zero', 'zerof') else (regs[o['r']] + other)
             elif k == 'copy': result = dictable(regs[o['r']]) if o.get('form') == 'ctor' else regs[o['r']].copy()
             else: raise RuntimeError('unknown op ' + k)
@@ -522,13 +522,23 @@ CELLS = [None, None, 0, 1, 2, -3, {'f': 2}, {'f': 5}, {'nan': 0}, {'nan': 1}, {'
          {'d': 86400000000}, {'d': 315537983999999999}, {'d': 64093000089123456}]        # 0001-01-01, 9999-12-31 23:59:59.999999, a sub-second time in 2031
 
 def rcell(rng): return rng.choice(CELLS)
-def rname(rng, t=None, p_exist=0.7):
-    if t is not None and t.cols and rng.random() < p_exist: return rng.choice(t.cols)
-    return rng.choice(NAMES)
+DIGITS = ['0', '7']          # integer column names: d[0] = v / update({0: v}) / dictable({0: ..}) / d + {0: ..} store the column under str(0)
+def rname(rng, t=None, p_exist=0.7, ident=False):
+    """ident: the name becomes a lambda parameter, it must be an identifier"""
+    cols = [c for c in (t.cols if t is not None else []) if not (ident and not c.isidentifier())]
+    if cols and rng.random() < p_exist: return rng.choice(cols)
+    return rng.choice(NAMES if ident or rng.random() < 0.85 else DIGITS)
+
+def K(o, name):
+    """the python spelling of a column name: an int when the op says so and the name is all digits"""
+    return int(name) if o.get('intkeys') and name.isdigit() else name
+def Krecs(o, recs):
+    allint = o.get('intkeys') and all(n.isdigit() for r in recs for n, _ in r)      # mixed int/str keys in a LIST of records: dict_concat sorts the keys
+    return [dict((int(n) if allint else n, x) for n, x in r) for r in recs]
 
 def gen_new(rng, dst, malformed):
     nrows = rng.choice([0, 0, 1, 1, 1, 2, 3, 4, 5]); ncols = rng.choice([0, 1, 1, 2, 2, 3, 4])
-    names = rng.sample(NAMES, ncols)
+    names = rng.sample(NAMES + DIGITS, ncols) if rng.random() < 0.3 else rng.sample(NAMES, ncols)
     r = rng.random()
     if r < 0.3:
         recs = []
@@ -560,10 +570,10 @@ ROWFNS = ['coalesce', 'isnone', 'ident', 'eq']
 def gen_rowfn(rng, t):
     k = rng.choice(ROWFNS)
     if k in ('coalesce', 'eq'):
-        a = rname(rng, t, 0.9); b = rname(rng, t, 0.9)
+        a = rname(rng, t, 0.9, True); b = rname(rng, t, 0.9, True)
         if a == b: b = [n for n in NAMES if n != a][rng.randrange(3)]
         return [k, a, b]
-    return [k, rname(rng, t, 0.9)]
+    return [k, rname(rng, t, 0.9, True)]
 
 def gen_op(rng, shadow, malformed):
     """shadow(r) -> Ref or None (unknown)"""
@@ -653,9 +663,9 @@ def gen_op(rng, shadow, malformed):
         else:
             # functions with a second, column-named parameter (explicit keys only: the order of the keys matters). The column they read is
             # often itself among the keys and transformed EARLIER in the same call: each step must see the rows as they are by then
-            b = rname(rng, t, 0.9)
+            b = rname(rng, t, 0.9, True)
             fs = [[rng.choice(['eq', 'eq', 'coalesce']), b]]
-            if rng.random() < 0.4: fs.insert(rng.randrange(2), rng.choice([['isnone'], ['eq', rname(rng, t, 0.9)], ['none']]))
+            if rng.random() < 0.4: fs.insert(rng.randrange(2), rng.choice([['isnone'], ['eq', rname(rng, t, 0.9, True)], ['none']]))
             ks = [rname(rng, t, 0.9) for _ in range(rng.choice([1, 2, 2]))]
             if rng.random() < 0.6: ks = [b] + [k_ for k_ in ks if k_ != b]
         return {'op': 'do', 'dst': dst, 'r': r, 'fs': fs, 'ks': ks, 'fform': rng.choice(['single', 'list'])}
@@ -666,7 +676,7 @@ def gen_op(rng, shadow, malformed):
         elif q < 0.3: a = rng.choice(['zero', 'zerof'])
         elif q < 0.65: a = {'reg': rng.randrange(NREGS)}
         else:
-            ks = [nm for nm in NAMES if rng.random() < 0.5]
+            ks = [nm for nm in NAMES + DIGITS if rng.random() < 0.4]
             a = {'rec': [[nm, rcell(rng)] for nm in ks]}
         return {'op': 'add', 'dst': dst, 'r': r, 'a': a, 'radd': rng.random() < 0.3}
     return {'op': 'copy', 'dst': dst, 'r': r}
@@ -684,12 +694,13 @@ def gen_probe(rng, t, r, dst):
     if k == 'relabel': return {'op': 'relabel', 'dst': dst, 'r': r, 'sp': ['map', []]}
     if k == 'do': return {'op': 'do', 'dst': dst, 'r': r, 'f': ['ident'], 'ks': rng.choice([None, []])}
     if k == 'addrec': return {'op': 'add', 'dst': dst, 'r': r, 'a': {'rec': []}, 'radd': False}
-    if k == 'call' and cols: return {'op': 'call', 'dst': dst, 'r': r, 'key': cols[0], 'arg': {'f': ['ident', cols[0]]}}
+    if k == 'call' and cols and cols[0].isidentifier(): return {'op': 'call', 'dst': dst, 'r': r, 'key': cols[0], 'arg': {'f': ['ident', cols[0]]}}
     return {'op': 'copy', 'dst': dst, 'r': r}
 
 def add_forms(rng, o):
     """alternative SPELLINGS of the same operation (same model op): chosen at random so every spelling meets every kind of table"""
     k = o['op']; q = rng.random()
+    if k in ('new_cols', 'new_records', 'set', 'add') and rng.random() < 0.7: o['intkeys'] = True      # digit names are passed as python ints
     if k == 'new_cols':
         o['form'] = rng.choice(['kw', 'dict', 'mixed'])
         if o['form'] == 'mixed': o['split'] = rng.randrange(0, len(o['kvs']) + 1)
@@ -793,6 +804,8 @@ def single_ops(names, nrows):
         for v in ({'S': 2}, {'L': []}, {'L': [2]}, {'L': [2, None]}, {'L': [2, 3, 4]}):
             yield {'op': 'set', 'r': r, 'key': key, 'v': v}
             yield {'op': 'set', 'r': r, 'key': key, 'v': v, 'form': 'update'}
+        for v in ({'S': 2}, {'L': [2, None]}):
+            yield {'op': 'set', 'r': r, 'key': '0', 'v': v, 'intkeys': True, 'form': 'item' if key == 'a' else 'update'}
             yield {'op': 'call', 'dst': dst, 'r': r, 'key': key, 'arg': {'v': v}}
         yield {'op': 'del', 'r': r, 'key': key}
         yield {'op': 'getcol', 'r': r, 'key': key}
